@@ -835,6 +835,13 @@ fn c15(rng: &mut Rng, idx: usize) -> Case {
 }
 
 fn c16(rng: &mut Rng, tier: &str, idx: usize) -> Case {
+    if idx == 7 {
+        // more than 65 535 terms supplied in random order: every one of them is there afterwards
+        let mut c = Case::new("order-big-arena");
+        c.op(format!("bigarena 70000 {}", rng.next()));
+        c.nontrivial = true;
+        return c;
+    }
     if idx % 25 == 3 {
         // a deep chain built leaf first, root first and shuffled: all three must be identical
         let mut c = Case::new("deep-chain-orders");
